@@ -1073,11 +1073,9 @@ func (e *executor) executeGroupBy(ctx context.Context, index string, c *pql.Call
 	if len(c.Children) == 0 {
 		return nil, errors.New("need at least one child call")
 	}
-	limit := int(^uint(0) >> 1)
-	if lim, hasLimit, err := c.UintArg("limit"); err != nil {
+	limit, err := groupByFetchLimit(c)
+	if err != nil {
 		return nil, err
-	} else if hasLimit {
-		limit = int(lim)
 	}
 	filter, _, err := c.CallArg("filter")
 	if err != nil {
@@ -1108,7 +1106,24 @@ func (e *executor) executeGroupBy(ctx context.Context, index string, c *pql.Call
 			return nil, errors.Wrap(err, "getting column")
 		}
 		if hasLimit || hasCol { // we need to perform this query cluster-wide ahead of executeGroupByShard
-			childRows[i], err = e.executeRows(ctx, index, child, shards, opt)
+			// Cluster-wide also when this GroupBy is the part of a distributed query
+			// forwarded to this node: with the remote option and this node's shards
+			// only, Rows would see just the local shards (a different row list on
+			// every node) or fail with "shard unavailable" for a foreign column.
+			rowsOpt, rowsShards := opt, shards
+			if opt != nil && opt.Remote {
+				o := *opt
+				o.Remote = false
+				rowsOpt = &o
+				idx := e.Holder.Index(index)
+				if idx == nil {
+					return nil, ErrIndexNotFound
+				}
+				if rowsShards = idx.AvailableShards().Slice(); len(rowsShards) == 0 {
+					rowsShards = []uint64{0}
+				}
+			}
+			childRows[i], err = e.executeRows(ctx, index, child, rowsShards, rowsOpt)
 			if err != nil {
 				return nil, errors.Wrap(err, "getting rows for ")
 			}
@@ -1140,6 +1155,8 @@ func (e *executor) executeGroupBy(ctx context.Context, index string, c *pql.Call
 	} else if hasOffset {
 		if int(offset) < len(results) {
 			results = results[offset:]
+		} else {
+			results = results[:0]
 		}
 	}
 	// Apply limit.
@@ -1151,6 +1168,26 @@ func (e *executor) executeGroupBy(ctx context.Context, index string, c *pql.Call
 		}
 	}
 	return results, nil
+}
+
+// groupByFetchLimit returns how many leading groups a GroupBy call has to collect
+// (per shard and when merging): its limit plus the offset that is skipped afterwards.
+func groupByFetchLimit(c *pql.Call) (int, error) {
+	limit := int(^uint(0) >> 1)
+	lim, hasLimit, err := c.UintArg("limit")
+	if err != nil {
+		return 0, err
+	} else if !hasLimit {
+		return limit, nil
+	}
+	offset, _, err := c.UintArg("offset")
+	if err != nil {
+		return 0, err
+	}
+	if lim+offset < uint64(limit) {
+		limit = int(lim + offset)
+	}
+	return limit, nil
 }
 
 // FieldRow is used to distinguish rows in a group by result.
@@ -1254,11 +1291,9 @@ func (e *executor) executeGroupByShard(ctx context.Context, index string, c *pql
 		return []GroupCount{}, nil
 	}
 
-	limit := int(^uint(0) >> 1)
-	if lim, hasLimit, err := c.UintArg("limit"); err != nil {
+	limit, err := groupByFetchLimit(c)
+	if err != nil {
 		return nil, err
-	} else if hasLimit {
-		limit = int(lim)
 	}
 
 	results := make([]GroupCount, 0)
@@ -1421,10 +1456,10 @@ func (e *executor) executeRowsShard(_ context.Context, index string, fieldName s
 	}
 
 	limit := int(^uint(0) >> 1)
-	if lim, hasLimit, err := c.UintArg("limit"); err != nil {
+	lim, hasLimit, err := c.UintArg("limit")
+	if err != nil {
 		return nil, errors.Wrap(err, "getting limit")
 	} else if hasLimit {
-		filters = append(filters, filterWithLimit(lim))
 		limit = int(lim)
 	}
 
@@ -1434,7 +1469,15 @@ func (e *executor) executeRowsShard(_ context.Context, index string, fieldName s
 			continue
 		}
 
-		viewRows := frag.rows(start, filters...)
+		// The limit filter counts down as it admits rows, so every view needs its
+		// own: one shared by all views is used up by the first view and hides the
+		// rows of the others (a smaller row in a later time view was lost).
+		viewFilters := filters
+		if hasLimit {
+			viewFilters = append(append([]rowFilter{}, filters...), filterWithLimit(lim))
+		}
+
+		viewRows := frag.rows(start, viewFilters...)
 		rowIDs = rowIDs.merge(viewRows, limit)
 	}
 
@@ -3195,6 +3238,11 @@ func (gbi *groupByIterator) nextAtIdx(i int) {
 		}
 		if wrapped && i != 0 {
 			gbi.nextAtIdx(i - 1)
+			// The fields to the left are exhausted: iteration is over. (Without this
+			// check the loop below never ends when the stale row to the left is empty.)
+			if gbi.done {
+				return
+			}
 		}
 		if i == 0 && gbi.filter != nil {
 			gbi.rows[i].row = nr.Intersect(gbi.filter)
